@@ -3,6 +3,11 @@ package main
 import (
 	"errors"
 	"fmt"
+	"net/http/httptest"
+	"strings"
+
+	"github.com/emersion/go-webdav/caldav"
+	"github.com/emersion/go-webdav/carddav"
 
 	webdav "github.com/emersion/go-webdav"
 	"github.com/emersion/go-webdav/internal"
@@ -51,6 +56,50 @@ func emitCondMatch(o *Out, v, etag string) {
 	}
 }
 
+// the CalDAV / CardDAV servers hand both header values to the backend unaltered: a PUT of a valid object with the
+// two headers set, answered by a recording backend
+func emitCondPass(o *Out, srv, im, inm string) {
+	res := guard(func() string {
+		var gotIM, gotINM string
+		called := false
+		rec := httptest.NewRecorder()
+		switch srv {
+		case "cal":
+			req := httptest.NewRequest("PUT", "http://example.com/u/cal/a/n.ics", strings.NewReader(frontIcal))
+			req.Header.Set("Content-Type", "text/calendar")
+			setIfAny(req.Header, "If-Match", im)
+			setIfAny(req.Header, "If-None-Match", inm)
+			b := &calBackend{principal: "/u/", homeSet: "/u/cal/", calendars: []caldav.Calendar{{Path: "/u/cal/a/", Name: "A"}}}
+			(&caldav.Handler{Backend: b}).ServeHTTP(rec, req)
+			if b.lastPutOpt != nil {
+				called, gotIM, gotINM = true, string(b.lastPutOpt.IfMatch), string(b.lastPutOpt.IfNoneMatch)
+			}
+		case "card":
+			req := httptest.NewRequest("PUT", "http://example.com/u/ab/a/n.vcf", strings.NewReader(frontVcard))
+			req.Header.Set("Content-Type", "text/vcard")
+			setIfAny(req.Header, "If-Match", im)
+			setIfAny(req.Header, "If-None-Match", inm)
+			b := &cardBackend{principal: "/u/", homeSet: "/u/ab/", books: []carddav.AddressBook{{Path: "/u/ab/a/", Name: "A"}}}
+			(&carddav.Handler{Backend: b}).ServeHTTP(rec, req)
+			if b.lastPutOpt != nil {
+				called, gotIM, gotINM = true, string(b.lastPutOpt.IfMatch), string(b.lastPutOpt.IfNoneMatch)
+			}
+		}
+		if !called {
+			return fmt.Sprintf("not-called %d", rec.Code)
+		}
+		return "got " + hx(gotIM) + " " + hx(gotINM)
+	})
+	o.Stat("cond.pass." + strings.Fields(res)[0])
+	o.Emit("cond.pass", srv+" "+hx(im)+" "+hx(inm), res)
+}
+
+func setIfAny(h map[string][]string, k, v string) {
+	if v != "" {
+		h[k] = []string{v}
+	}
+}
+
 func famCond(o *Out, r *RNG, thorough bool) {
 	cur := "17c8a5e1b2c3d4e5f"
 	q := func(s string) string { return internal.ETag(s).String() }
@@ -66,6 +115,10 @@ func famCond(o *Out, r *RNG, thorough bool) {
 			}
 			emitCondMatch(o, im, tag)
 			emitCondMatch(o, im, "")
+			for _, inm := range []string{"", "*", hs[2], hs[3]} {
+				emitCondPass(o, "cal", im, inm)
+				emitCondPass(o, "card", inm, im)
+			}
 			emitCondMatch(o, im, "other")
 		}
 	}
@@ -96,6 +149,23 @@ func famCond(o *Out, r *RNG, thorough bool) {
 		}
 		emitCond(o, r.Chance(75), tag, pick(), pick())
 		emitCondMatch(o, pick(), tag)
+		if i%4 == 0 {
+			// header values with list syntax, commas inside a tag, padding
+			wide := func() string {
+				switch r.Intn(5) {
+				case 0:
+					return q(randFrom(r, alpha, 3) + "," + randFrom(r, alpha, 3))
+				case 1:
+					return q(randFrom(r, alpha, 3)) + ", " + q(randFrom(r, alpha, 3))
+				case 2:
+					return "W/" + q(tag) + " , *"
+				case 3:
+					return randFrom(r, append(alpha[:len(alpha):len(alpha)], ",", ";", "=", "W/"), 8)
+				}
+				return pick()
+			}
+			emitCondPass(o, r.Pick([]string{"cal", "card"}), wide(), wide())
+		}
 	}
 }
 
